@@ -30,7 +30,8 @@ UN = {'__invert__': operator.invert, '__neg__': operator.neg}
 
 def corpus():
     t = {'k': 'dict', 'od': False, 'id': 1, 'items': [['a', {'k': 'list', 'id': 2, 'items': [7, 9, 11]}], ['i', 1],
-                                                      ['f', {'fn': ['inc']}], ['s', 'hello']]}
+                                                      ['f', {'fn': ['inc']}], ['s', 'hello'], ['g', {'fn': ['id']}],
+                                                      ['d', {'k': 'dict', 'od': False, 'id': 3, 'items': [['x', {'k': 'list', 'id': 4, 'items': []}]]}]]}
     L = lambda v: {'lit': v}  # noqa: E731
     return [
         {'target': 7, 'ops': [['__floordiv__', L(2)]]},
@@ -44,6 +45,9 @@ def corpus():
         {'target': t, 'ops': [['__getitem__', L('a')], ['__getattr__', L('b')], ['__getitem__', L(0)]]},
         {'target': t, 'ops': [['__getitem__', L('i')], ['__add__', L('x')], ['__neg__', None]]},
         {'target': 5, 'ops': [['__invert__', None], ['__pow__', L(2)], ['__xor__', L(3)], ['__or__', L(8)], ['__and__', L(12)], ['__sub__', L(1)]]},
+        # F29: the VALUE of a T argument is passed on as it is — the very list / dict of the target, not a rebuilt copy
+        {'target': t, 'ops': [['__getitem__', L('g')], ['call', {'call': [{'t': [['__getitem__', L('a')]]}]}]]},
+        {'target': t, 'ops': [['__getitem__', L('g')], ['call', {'call': [{'t': [['__getitem__', L('d')]]}]}], ['__getitem__', L('x')]]},
         # what is an argument literal: exactly list / dict / tuple / set objects are rebuilt; an OrderedDict instance is passed as it is
         {'target': {'fn': ['id']}, 'ops': [['call', {'call': [L({'k': 'dict', 'od': True, 'id': 4001, 'items': [['q', 1]]})]}]]},
         {'target': {'fn': ['id']}, 'ops': [['call', {'call': [L({'k': 'dict', 'od': False, 'id': 0, 'items': [['q', {'k': 'dict', 'od': True, 'id': 4002, 'items': []}]]})]}]]},
